@@ -778,6 +778,11 @@ func (c creds) of(kind string) int {
 	return 0
 }
 
+// isAuthenticationError: the answer carries the code of an authentication error (401, or 407 where the worlds override it)
+func isAuthenticationError(status string) bool {
+	return status == "401" || status == "407" || strings.HasSuffix(status, "denied=401") || strings.HasSuffix(status, "denied=407")
+}
+
 func hmacJWT(kid string, claims map[string]any) string {
 	sig, err := jose.NewSigner(jose.SigningKey{Algorithm: jose.HS256, Key: []byte("0123456789abcdef0123456789abcdef")}, (&jose.SignerOptions{}).WithType("JWT").WithHeader("kid", kid))
 	if err != nil {
@@ -1248,6 +1253,12 @@ func pipeSim(r *simcore.Run) {
 			}
 			if matched && ch.ok && ans.positive && hasHeaderFin && ans.user != "" && ans.user != ch.subject {
 				r.FailProp("C04", "wrong-authenticator-won", c04Shape(p, ch), "subject %q reached the pipeline but the chain %v must yield %q; request: %s faults: %v", ans.user, ch.classes, ch.subject, c, fl)
+			}
+			// the converse, judged only where nothing else can explain an authentication error: no fault was drawn for this
+			// request, the rule has no error handlers of its own, and the chain model says that some authenticator succeeds
+			// (an earlier one that rejected its credentials allows fallback)
+			if ch.ok && len(fl) == 0 && len(p.ehs) == 0 && !ans.positive && isAuthenticationError(ans.status) {
+				r.FailProp("C04", "authentication-failed-although-an-authenticator-succeeds", c04Shape(p, ch), "%s answered %s although the chain %v yields the subject of %s; request: %s", entry, ans.status, ch.classes, p.authn[ch.stoppedAt].id, c)
 			}
 			if !ch.ok && ans.positive {
 				r.FailProp("C04", "authenticated-although-chain-must-fail", c04Shape(p, ch), "%s answered positively with subject %q although the chain must stop at %s: %v; request: %s faults: %v", entry, ans.user, p.authn[ch.stoppedAt].id, ch.classes, c, fl)
